@@ -357,7 +357,6 @@ func argLists(ps []pspec, vals []string, fn func(args []string)) {
 }
 
 var argFull = []string{"7", "abc", "", "1.5", "true", "0"}
-var argMid = []string{"7", "abc", "", "1.5"}
 var argSmall = []string{"7", "abc", "1.5"}
 
 func runBinding(c *vlib.Ctx) {
@@ -368,7 +367,7 @@ func runBinding(c *vlib.Ctx) {
 		vs   []pspec
 		vals []string
 	}
-	specs := []tierSpec{{1, variants(false), argFull}, {2, variants(false), argMid}}
+	specs := []tierSpec{{1, variants(false), argFull}, {2, variants(false), argFull}}
 	if !c.Quick() {
 		specs = []tierSpec{{1, variants(false), argFull}, {2, variants(false), argFull}, {3, variants(true), argSmall}}
 	}
@@ -713,7 +712,7 @@ func runGrammar(c *vlib.Ctx) {
 func init() {
 	vlib.Register(&vlib.Check{
 		ID: "C23", Engine: "E2",
-		Rule: "(1) binding: every signature of 1..N parameters (names pa,pb,pc; optional marker; type str/int/num/bool/omitted; default none/[]/[5]/[a b]/[x,\"y]; description none/\"d\"/\"a, b: [c]!\"; no mandatory after optional; quick N=2, thorough N=3 with defaults {none,[5],[x,\"y]} and descriptions {none,punctuated} at N=3) is defined with `function` (one-line and newline layouts alternating) and called with every argument list that supplies all mandatory parameters and any prefix of the optional ones, each argument from {7,abc,'',1.5,true,0} (reduced to {7,abc,'',1.5} at N=2 quick and {7,abc,1.5} at N=3); a harness builtin dumps data type, Go type and value of every declared variable, compared with the binding model (str verbatim, int = number truncated, num = number, bool = truthiness, default when missing, unset without default; an unconvertible argument fails the call before the body marker). (2) grammar: every generated signature in three layouts, and every string up to length L (quick 6, thorough 8) over the 9 runes a : , \" [ ] ! space newline, goes through lang.ParseMxFunctionParameters: no panic; documented grammar (strict reference parser) => accepted with identical fields; accepted => inside the documented grammar with free whitespace; accepted results have non-empty name and type, no mandatory after optional, and are stable under print -> re-parse. Non-trivial = (1) calls in which a non-str conversion, a default or an unset optional takes part; (2) strings that are accepted or belong to the documented grammar",
+		Rule: "(1) binding: every signature of 1..N parameters (names pa,pb,pc; optional marker; type str/int/num/bool/omitted; default none/[]/[5]/[a b]/[x,\"y]; description none/\"d\"/\"a, b: [c]!\"; no mandatory after optional; quick N=2, thorough N=3 with defaults {none,[5],[x,\"y]} and descriptions {none,punctuated} at N=3) is defined with `function` (one-line and newline layouts alternating) and called with every argument list that supplies all mandatory parameters and any prefix of the optional ones, each argument from {7,abc,'',1.5,true,0} (reduced to {7,abc,1.5} at N=3); a harness builtin dumps data type, Go type and value of every declared variable, compared with the binding model (str verbatim, int = number truncated, num = number, bool = truthiness, default when missing, unset without default; an unconvertible argument fails the call before the body marker). (2) grammar: every generated signature in three layouts, and every string up to length L (quick 6, thorough 8) over the 9 runes a : , \" [ ] ! space newline, goes through lang.ParseMxFunctionParameters: no panic; documented grammar (strict reference parser) => accepted with identical fields; accepted => inside the documented grammar with free whitespace; accepted results have non-empty name and type, no mandatory after optional, and are stable under print -> re-parse. Non-trivial = (1) calls in which a non-str conversion, a default or an unset optional takes part; (2) strings that are accepted or belong to the documented grammar",
 		Run: func(c *vlib.Ctx) {
 			runBinding(c)
 			runGrammar(c)
